@@ -1079,6 +1079,11 @@ class RefWorlds:
                 want = "noentry" if cv is None else ("row " + spec_row(vs, e, cv) if spec_matches(vs, f, cv) else "nomatch")
                 if ret != want:
                     fails.append(("C03", "entry query %s filter %s on %s returned %r, expected %r" % (t[4], t[5], e, ret, want)))
+                    if cv is None and ret != "noentry":
+                        # an identifier that is not live resolved to an entity (a reused slot, say)
+                        via = "World::entry" if k == "eqry" else "query-time Entries::entry"
+                        fails.append(("C02", "the dead identifier %s resolved through %s: %r" % (e, via, ret)))
+                        fails.append(("C13", "the identifier %s is accepted by %s but attached to no stored entity" % (e, via)))
         elif k in ("qwr", "pqwr"):
             ws = int(t[1])
             if ws in self.maps:
